@@ -11,7 +11,7 @@ from vlib import core
 REPO_SOURCES = ["src/Algorithms/DirectSearch/CMA.cpp", "src/Algorithms/DirectSearch/CMSA.cpp",
                 "src/Algorithms/DirectSearch/ElitistCMA.cpp", "src/Algorithms/DirectSearch/CrossEntropyMethod.cpp",
                 "src/Core/Random.cpp"]
-LAKE_TARGETS = ["SharkVerif.Props.C11", "drv_c11"]
+LAKE_TARGETS = ["SharkVerif.Props.C11", "SharkVerif.Lemmas.CMACov", "drv_c11"]
 
 TRUST = ("Lean 4.33 kernel; axioms at most propext/Classical.choice/Quot.sound (audited per run); strategy-parameter formulas regenerated from the C++ "
          "by translate/cma_params.py (T0), update rules hand-modelled and tied to the C++ by the correspondence harness (differential, generator-bounded); ")
@@ -32,9 +32,17 @@ MANIFEST = dict(
         "(7) Configuration axes, universally quantified: ecmaInit_invariant + ecma_elitist_monotone_run / _prefix (whole ElitistCMA runs from init, any number of steps, BOTH settings of activeUpdate(): the reported value never gets worse), "
         "ecma_accepted_monotone (with penalties, i.e. a feasibility box: the accepted penalized fitness never increases), ecma_step_rank_invariant / ecma_rank_invariance (whole ElitistCMA runs on phi o f with the same samples visit the same points with the same step sizes and factors, every order-preserving phi, both activeUpdate settings; classify_relabel: the three-way success rule only compares), clamp_pos_any / sigma_pos_any_bound (sigma_pos for EVERY CMA::setLowerBound value, zero and negative included), "
         "cemNoise_nonneg / cem_variance_nonneg_any_noise (every CrossEntropyMethod::setNoiseType configuration, every generation). "
+        "(8) Covariance of the modelled CMA::updatePopulation ON THE LIST MATRICES THE MODEL AND THE DRIVER COMPUTE WITH (Lemmas/CMACov.lean: entries, shape, quadratic form; ent_covUpdate, rankMu_psd, covUpdate_psd / covUpdate_pd; no detour through Mathlib's Matrix): "
+        "update_C (the covariance written by CMA.update IS eq. 43 applied to the old covariance, the new path and the rank-mu matrix of the selected points), cma_update_cov_psd, doInit_covAdmissible, "
+        "cma_run_cov_psd (END TO END: whole modelled runs with the coefficients of the regenerated doInit, every n>=1, every mu>=1 i.e. every admissible user-set lambda>mu, every recombination type, objective, variate stream, eigendecomposition, lower bound, step size, hSig, number of generations: C symmetric positive SEMIdefinite, path and mean of dimension n), "
+        "cma_update_cov_pd_partial / cma_run_cov_pd_partial (symmetric positive DEFINITE after every generation PROVIDED c_mu stays below its cap 1-c1; _partial: cma_cmu_cap_reached shows the cap is reached by configurations the code accepts (n=1, mu=10, equal weights), and cma_cov_collapse_witness that the statement is then false -- identity replaced by the zero matrix in one generation of a converged run: finding F17 as mathematics). "
+        "(9) VD-CMA: vd_cov_pd (D(I+vv^T)D is symmetric positive definite for every dimension, every v and every D without zero entry), vd_cov_singular_of_zero (and only then). "
+        "(10) Constraint handling (Model/CMA.lean Constraint / project / unpenalized / penalized = PenalizingEvaluator): cma_value_is_f_closest_feasible, generic_value_is_f_closest_feasible (whole runs of CMA and of every Strategy instance: reported value = f at the reported point if feasible, f at its closest feasible point otherwise), "
+        "ecma_value_is_f_closest_feasible (ElitistCMA::step, all three outcomes of the success rule, both activeUpdate settings), penalized_feasible, penalized_ge; generic_deterministic, ecma_deterministic (a modelled run is a function of the variate/input stream and of the objective's values). "
         "Tie, on every run: all strategy constants of CMA/CMSA/VD-CMA/ElitistCMA/LM-CMA objects initialised through their public interface are compared bit for bit with the Float instance of the regenerated formulas; "
         "CMA::updatePopulation, ElitistCMA::step, CMSA::updatePopulation, VDCMA::updateStrategyParameters and CrossEntropyMethod's update are re-computed step by step by the models from the real run's own state and samples (one-step refinement; ECMA/CMSA/CEM bit-identical, CMA and VD-CMA bit-identical or 1e-9 behind BLAS/eigensolver/remora kernels); "
         "whole SimplexDownhill runs are re-computed from the starting point (objective evaluated in Lean) and compared bit for bit. "
+        "The PenalizingEvaluator model is tied to the real ElitistCMA on every run: for every generation of every ElitistCMA trace the driver re-evaluates the offspring x + sigma*y with the model (box projection with BoxConstraintHandler's 1e-13 slack, objective at the projection evaluated in Lean, penalty with the factor AS CONFIGURED, not read back from the object) and compares penalized and unpenalized fitness with the individual's (bit-exact in all generated cases); boxed traces start on the boundary / in corners of small boxes so that most offspring are infeasible. "
         "Independent oracle on the real CMA (all recombination types, user-set lambda from 2 to 200 incl. lambda >> n), CMSA, ElitistCMA, VD-CMA, CrossEntropyMethod (user-set population / selection / variance), SimplexDownhill, n from 1 to 60, after init and after every step: "
         "sigma>0 finite; covariance symmetric (1e-9 relative + 1e-16 absolute, F13) + own Cholesky of the symmetric part (C+C^T)/2, failing only on a pivot that is certifiably negative (below -64 n eps C_ii; pivots within rounding of zero are counted as undecided) (CMA) / valid Cholesky factor (CMSA, ElitistCMA) / D finite non-zero, v finite, |v|>0 (VD-CMA) / variance finite >=0 (CEM); mean and paths finite; weights positive, non-increasing, sum 1; learning rates in range; "
         "value = f(closest feasible point) bit-exact; 9 runs per case with the same seed: fresh, fresh, RE-INITIALISED used object, an object first USED ON ANOTHER PROBLEM (other dimension, smaller or larger, other start and seed, per-run state overwritten through the after-init setters) and then initialised, "
@@ -48,7 +56,10 @@ MANIFEST = dict(
         "Every optimizer object is constructed in storage pre-filled with a byte pattern that differs between the runs of a case, so a member that neither constructor nor init sets has different garbage in the two fresh runs (uninitialised-member slips show as same-seed-different-run or a UBSan report). " "Determinism with a private generator is tested with random::globalRng in a DIFFERENT state in each of the 9 runs (a draw from the wrong generator changes the run), with the global generator it is seeded identically. "
         "The model traces cover the same axes where they change the update: activeUpdate on/off and a feasibility box (Ecma model), lower bound (carried in the trace header) and initial covariance (CMA model), initial covariance (CMSA), noise type / variance vector / resized population (CEM; cemNoise in Model/ES.lean), every init overload (simplex); "
         "the strategy constants are compared with the regenerated formulas under every construction mode / init overload / setter combination."),
-  note=TRUST + "not modelled (inputs of the models): the random variates and the eigendecomposition of MultiVariateNormalDistribution::update; VD-CMA: the model vdUpdate is tied by one-step refinement (mostly within the 1e-9 tolerance, the inner products and norms go through remora's kernels), but that D stays free of zeros and v finite (validity of D(I+vv^T)D) is oracle-only; cov_update_psd is stated on Mathlib matrices, the list-based covUpdate of the executable model is the same formula but the two are not formally connected; "
+  note=TRUST + "not modelled (inputs of the models): the random variates and the eigendecomposition of MultiVariateNormalDistribution::update; VD-CMA: the model vdUpdate is tied by one-step refinement (mostly within the 1e-9 tolerance, the inner products and norms go through remora's kernels), but that D stays free of zeros and v finite (validity of D(I+vv^T)D) is oracle-only; cov_update_psd / cov_update_pd on Mathlib real matrices are kept; since branch deep3-c11 the same statements are proved about the list-based covUpdate of the executable model itself (Lemmas/CMACov.lean) and composed end to end, over Rat (exact field arithmetic; floating-point rounding is outside every theorem -- F13 was a rounding defect and is found by the oracle, not by a theorem); "
+       "VD-CMA: vd_cov_pd needs D free of zeros; vdUpdate sets D_i(1+s_i) and s_i = -1 is not excluded by the formulas, so zero-freeness of D stays oracle-only; "
+       "positive definiteness of CMSA / ElitistCMA is proved as validity of the Cholesky factor (positive diagonal), not as a statement about L L^T; "
+       "PenalizingEvaluator is tied for ElitistCMA (whose individual keeps the offspring's fitness pair); for CMA / CMSA / VD-CMA / CEM the traces feed the unpenalized fitness of the real offspring into the model and value = f(closest feasible point) is decided by the bit-exact oracle on the real runs; "
        "cholUpdate_diag_pos proves validity of the returned factor, not that L'L'^T equals alpha*LL^T+beta*vv^T; simplex rank invariance and CEM/simplex convergence are oracle-only; the noise-handling branch of CMA::step (function.isNoisy()) is outside the property (deterministic objective); "
        "ElitistSelection uses std::sort (unstable beyond 16 elements): generations with tied fitness among more than 16 offspring are counted, not compared; convergence on the sphere is numerical (value <= 1e-10 within the budget; CEM: 1e-6 and dimension 1 only, because the noise-free cross-entropy method with 10 of 100 parents converges prematurely in higher dimension: n=5, seed 862289 stalls at 3.6e-3; n=2, seed 680299 from (3, 2.5) stalls at 1.1e-2, about 1 run in 400). "
        "That a run with a private generator does not depend on random::globalRng, and the equivalence of per-run state after init of a used object, have no model-level content (the models take the variates as inputs) and are decided by the oracle on the real code only. "
@@ -446,6 +457,18 @@ def gen_model_traces(r, quick):
         ops.append("opt ecma " + nums([0, 0, 0, r.choice(SIGMAS)]))
         ops.append("ecmatrace %d %d %s" % (r.range(1, 10 ** 6), r.range(5, steps), nums(gen_x0(r, n, None)[0])))
         out.append(ops)
+    for _ in range(k):     # ElitistCMA WITH a feasibility box: the driver re-evaluates every offspring with the model of PenalizingEvaluator
+        # (projection, f at the closest feasible point, penalty with the configured factor) and compares with the real fitness pair;
+        # small boxes and starts on the boundary / in a corner make infeasible offspring the rule
+        ops, n, kind, box = gen_objective(r, allow_box=False)
+        w = r.choice([0.25, 0.5, 1.0, 2.0])
+        lo = [-w * r.choice([1, 1, 2]) for _ in range(n)]; hi = [w * r.choice([1, 1, 2]) for _ in range(n)]
+        ops.append("softbox %s %s" % (nums(lo), nums(hi)))
+        pen = r.choice([None, fb(1.0), fb(1e-3), fb(1e6), fb(0.0)])
+        ops.append(optline("ecma", 0, 0, 0, r.choice([0, 0.5, 2.0]), active=r.choice([None, 0, 1]), rng=r.choice([None, "private"]), penalty=pen))
+        x0 = [r.choice([lo[i], hi[i], 0.0, lo[i] + (hi[i] - lo[i]) * r.range(0, 8) / 8]) for i in range(n)]
+        ops.append("ecmatrace %d %d %s" % (r.range(1, 10 ** 6), r.range(5, steps), nums(x0)))
+        out.append(ops)
     for _ in range(k):
         ops, n, kind, box = gen_objective(r)
         _, oline, _ = gen_opt(r, n, box is not None, kinds=["cmsa"])
@@ -721,9 +744,9 @@ def run(ctx):
                         "log strictly increasing on the positive rationals (weights), sqrt positive on positives (Cholesky update, CMSA c_sigma), pow non-negative (ElitistCMA unlearning rate)",
                         "covariance theorem over the reals (Mathlib), not over floating point"]
     translate(ctx)
-    ctx.prove(["SharkVerif.Props.C11"])
+    ctx.prove(["SharkVerif.Props.C11", "SharkVerif.Lemmas.CMACov"])
     if not ctx.quick:
-        ctx.leanchecker(["SharkVerif.Props.C11"])
+        ctx.leanchecker(["SharkVerif.Props.C11", "SharkVerif.Lemmas.CMACov"])
     exe = build(ctx)
     drv = ctx.driver("drv_c11")
     if not exe or not drv:
